@@ -15,7 +15,7 @@ SOLVERS = {
     'cvc5': lambda f, t: ['cvc5', '--tlimit=%d' % (t * 1000), '--produce-models', f],
 }
 
-MAX_QUERY_BYTES = 1500000
+MAX_QUERY_BYTES = 6000000
 
 
 def sym(name):
@@ -172,6 +172,21 @@ def skolemize_goal(goal):
     return goal
 
 
+def skolemize_positive(t):
+    """replace universally quantified subformulas in positive positions of a goal by skolem instances
+    (the goal is going to be negated: forall in positive position becomes existential)."""
+    if t[0] == 'q' and t[1] == 'forall':
+        m = {}
+        for n, s_ in t[2]:
+            m[n] = T.fresh('sk_' + n.split('!')[0], s_)
+        return skolemize_positive(T.substitute(t[3], m))
+    if t[0] == 'a' and t[1] == 'and':
+        return T.and_(*[skolemize_positive(x) for x in t[2:]])
+    if t[0] == 'a' and t[1] == '=>':
+        return T.implies(t[2], skolemize_positive(t[3]))
+    return t
+
+
 def split_goal(goal):
     """goal A => (B => C) ... yields (hyps, conclusion) after skolemising nested foralls."""
     hyps = []
@@ -182,7 +197,7 @@ def split_goal(goal):
             goal = goal[3]
             continue
         break
-    return hyps, goal
+    return hyps, skolemize_positive(goal)
 
 
 # ---------------------------------------------------------------- generator-side instantiation
